@@ -659,6 +659,17 @@ func (e *Env) call(c *ast.CallExpr) Value {
 			args = args[1:]
 			name = strings.TrimSuffix(name, "S")
 		}
+		// "Ref as *PID": bound variables carry a Go type (field selection)
+		var boundType types.Type
+		if j := strings.Index(sort, " as "); j >= 0 {
+			if te, err := parser.ParseExpr(strings.TrimSpace(sort[j+4:])); err == nil {
+				boundType = e.lookupType(te)
+			}
+			if boundType == nil {
+				e.fail("quantifier: unknown Go type in %q", sort)
+			}
+			sort = strings.TrimSpace(sort[:j])
+		}
 		// leading identifiers are the bound variables; then the body; then patterns
 		nv := 0
 		for nv < len(args)-1 {
@@ -678,6 +689,9 @@ func (e *Env) call(c *ast.CallExpr) Value {
 			var vt types.Type
 			if sort == "Int" {
 				vt = types.Typ[types.Int]
+			}
+			if boundType != nil {
+				vt = boundType
 			}
 			n.vars[id.Name] = Value{T: bv, Typ: vt}
 			binders = append(binders, fmt.Sprintf("(%s %s)", bv.S, sort))
@@ -752,6 +766,20 @@ func (e *Env) call(c *ast.CallExpr) Value {
 			r = sArr(r)
 		}
 		return Value{T: Le(e.oldNow, App("atime", "Int", r))}
+	case "store":
+		a, i, v := e.eval(args[0]), e.eval(args[1]), e.eval(args[2])
+		if v.T.Sort == "Nil" {
+			v.T = NullT
+		}
+		return Value{T: Store(a.T, i.T, v.T)}
+	case "arbitrary":
+		// arbitrary("(Array Ref Int)"): an unconstrained value of that sort
+		lit, ok := args[0].(*ast.BasicLit)
+		if !ok {
+			e.fail("arbitrary needs a sort string")
+		}
+		so, _ := strconv.Unquote(lit.Value)
+		return Value{T: x.decls.Fresh("arbitrary", so)}
 	case "ctxcancel":
 		v := e.eval(args[0])
 		x.decls.Fun("ctxcancel", []string{"Iface"}, "Ref")
